@@ -12,7 +12,7 @@ from tradingenv.broker.trade import Trade
 from tradingenv.broker.fees import BrokerFees
 from tradingenv.broker.rebalancing import Rebalancing
 from tradingenv.events import EventNBBO
-from tradingenv.contracts import Rate
+from tradingenv.contracts import Rate, ES, ZN
 
 from vf import gen, monitor
 from vf.ledger import Ledger
@@ -535,3 +535,113 @@ def twin_spot_future(ctx):
     ctx.cat("twin")
     ctx.nontrivial = bool({"add", "flip"} & kinds)
     ctx.sample = {"twin": True, "mult": mult, "margin": mr, "deposit": dep, "ops": ops[:30]}
+
+
+def special_quotes(ctx, props):
+    """Broker history around two special market states of margined contracts:
+    (a) a FLAT margined contract is discontinued (its book goes NaN) while others, traded before or after it,
+        are still held and keep moving;
+    (b) the liquidation quote of a HELD margined contract is exactly 0.0 at a valuation (posted margin is then
+        0) and moves away from zero afterwards.
+    After every operation: NLV = ledger identity (C01) and posted margin = requirement x multiplier x |position|
+    x liquidation price for every margined contract (C05, through the MarginMonitor hooks)."""
+    from tradingenv.events import EventContractDiscontinued
+    rng = ctx.rng
+    pool = [gen.UserFuture("N1", rng.choice([1.0, 10.0]), rng.choice([0.1, 0.25])), gen.UserFuture("N2", 5.0, 0.3),
+            ES(2019, 6), ES(2019, 12), ZN(2019, 9), gen.AssetFuture("AF", 20, 0.2)]
+    rng.shuffle(pool)
+    cs = pool[: rng.randint(2, 4)]
+    if rng.random() < 0.5:
+        cs.append(gen.SpotMult("L10", 10.0))
+    fees = BrokerFees(fixed=rng.choice([0, 1.5]), proportional=rng.choice([0, 1e-4]))
+    t = datetime(2019, 1, 1)
+    ex = gen.new_exchange(t, fees, 0.0)
+    dep = rng.choice([1e5, 1e7])
+    b = Broker(ex, deposit=dep, fees=fees)
+    led = Ledger(dep, fees)
+    mid = {}
+    dead = set()
+
+    def quote(c, bid=None, ask=None):
+        if bid is None:
+            mid[c] = mid.get(c, rng.choice([20.0, 100.0, 2500.0])) * math.exp(rng.gauss(0, 0.02))
+            sp = rng.choice([0, 1e-4, 1e-2])
+            bid, ask = mid[c] * (1 - sp / 2), mid[c] * (1 + sp / 2)
+        ex.process_EventNBBO(EventNBBO(t, c, bid, ask))
+        led.quote(c, bid, ask)
+
+    def trade(c, dq):
+        b.transact(Trade(t, c, dq, ex[c].bid_price, ex[c].ask_price, fees))
+        led.trade(c, dq)
+
+    def judge(op):
+        got = b.net_liquidation_value(False)
+        ctx.check("C01:nlv-identity", abs(got - led.nlv()) <= REL * led.scale(), op=op, got=got, want=led.nlv(),
+                  diff=got - led.nlv(), scenario="special-quotes")
+
+    for c in cs:
+        quote(c)
+    live = [c for c in cs]
+    mon = MarginMonitor(ctx, cs, active="C05" in props)
+    with mon:
+        # open positions in random order; some are closed again (flat, but remembered by the account)
+        order = list(cs)
+        rng.shuffle(order)
+        for c in order:
+            unit = dep / (mid[c] * c.multiplier)
+            trade(c, rng.choice([-1, 1]) * rng.uniform(0.05, 0.4) * unit)
+            judge("open")
+        marg = [c for c in cs if gen.is_margined(c)]
+        flat = [c for c in marg if rng.random() < 0.5][: len(marg) - 1]
+        for c in flat:
+            trade(c, -led.pos[c])
+            judge("close")
+        for i in range(rng.randint(6, 25)):
+            op = rng.choice(["quote", "quote", "val", "mark", "weights", "discontinue", "zero-dip", "trade"])
+            if op == "quote":
+                c = rng.choice(live)
+                quote(c)
+            elif op == "val":
+                pass
+            elif op == "mark":
+                b.marking_to_market(rng.choice([None, None] + live))
+            elif op == "weights":
+                if led.nlv() > 0:
+                    b.holdings_weights()
+            elif op == "discontinue":
+                cand = [c for c in live if gen.is_margined(c) and led.pos.get(c, 0.0) == 0.0]
+                if not cand or len(live) < 2:
+                    continue
+                c = rng.choice(cand)
+                ex.process_EventContractDiscontinued(EventContractDiscontinued(t, c))
+                led.drop_quote(c)
+                live.remove(c)
+                dead.add(c)
+                ctx.cat("flat-margined-contract-discontinued")
+            elif op == "zero-dip":
+                cand = [c for c in live if gen.is_margined(c) and led.pos.get(c, 0.0) != 0.0]
+                if not cand or led.nlv() <= 0:
+                    continue
+                c = rng.choice(cand)
+                p = led.pos[c]
+                # the liquidation side is exactly zero: bid 0 for a long, bid = ask = 0 for a short
+                quote(c, 0.0, (mid[c] * 0.01 if p > 0 and rng.random() < 0.5 else 0.0))
+                judge("zero-quote")
+                if rng.random() < 0.5:
+                    b.marking_to_market(None)
+                quote(c)            # ... and away from zero again
+                ctx.cat("liquidation-quote-exactly-zero")
+            else:
+                cand = [c for c in live if led.nlv() > 0]
+                if not cand:
+                    continue
+                c = rng.choice(cand)
+                p = led.pos.get(c, 0.0)
+                unit = max(led.nlv(), 1.0) / (mid[c] * c.multiplier)
+                dq = -p if (p != 0 and rng.random() < 0.3) else rng.choice([-1, 1]) * rng.uniform(0.05, 0.3) * unit
+                trade(c, _avoid_dust(p, dq))
+            judge(op)
+    ctx.nontrivial = bool(dead) or ctx.cats.get("liquidation-quote-exactly-zero", 0) > 0
+    ctx.cat("scenario:special-quotes")
+    ctx.sample = {"scenario": "special-quotes", "contracts": [gen.describe_contract(c) for c in cs],
+                  "discontinued": [c.symbol for c in dead]}
